@@ -40,6 +40,13 @@ def choose_subset(topo, rng, case):
         if not inner:
             return None
         c = inner[int(rng.integers(len(inner)))]
+        if case.get("flower_plus"):
+            # ... plus one cell of the second ring attached to exactly one petal (it hangs by a single interface); listed last
+            petals = sorted(adj[c])
+            second = sorted(d for d in range(topo.ncells()) if d != c and d not in petals and sum(1 for q in petals if d in adj[q]) == 1)
+            if not second:
+                return None
+            return [c] + petals + [second[int(rng.integers(len(second)))]]
         return [c] + sorted(adj[c])
     if case.get("around_junction"):
         # the three cells around one junction: three unknowns, one junction (two equations)
@@ -65,6 +72,10 @@ def storage_choices(case, topo, sub):
     if case.get("shuffle_cells"):
         cell_order = list(sub if sub is not None else range(topo.ncells()))
         rv.shuffle(cell_order)
+    if case.get("hang_first") and sub is not None and int(case.get("variant", 0)) % 2 == 1:
+        # the cell listed last in the subset (the hanging one) is constructed and stored first
+        base_ = cell_order if cell_order is not None else list(sub)
+        cell_order = [sub[-1]] + [q for q in base_ if q != sub[-1]]
     ea, eb = (int(rv.integers(2, 5)), int(rv.integers(0, 30))) if case.get("relabel") else (1, 0)
     return dict(reverse_cells=rev, shifts=shifts, vmap=(lambda i: a * i + b), cmap=(lambda i: 2 * i + 1) if case.get("relabel") else None,
                 emap=(lambda i: ea * i + eb), cell_order=cell_order)
